@@ -119,6 +119,8 @@ impl CryptoKey for Key {
     fn encrypt_data(&self, data: &[u8]) -> RusticResult<Vec<u8>> {
         let mut nonce = Nonce::default();
         rng().fill_bytes(&mut nonce);
+        #[cfg(feature = "verif-hooks")]
+        crate::verif::nonce_hook(data, &mut nonce);
 
         let mut res = Vec::with_capacity(data.len() + 32);
         res.extend_from_slice(&nonce);
